@@ -19,6 +19,7 @@ import (
 	metav1 "k8s.io/apimachinery/pkg/apis/meta/v1"
 	"k8s.io/utils/ptr"
 
+	apiext "github.com/koordinator-sh/koordinator/apis/extension"
 	slov1alpha1 "github.com/koordinator-sh/koordinator/apis/slo/v1alpha1"
 	"github.com/koordinator-sh/koordinator/pkg/koordlet/metriccache"
 	mockmetriccache "github.com/koordinator-sh/koordinator/pkg/koordlet/metriccache/mockmetriccache"
@@ -36,6 +37,7 @@ type c10E2ECase struct {
 	Layout   string     `json:"layout"`
 	LSESet   []int      `json:"lse_pod_cpuset"` // nil: the LSE pod has no cpuset annotation
 	LSUsage  int64      `json:"ls_pod_usage_cpus"`
+	HostBENil int64     `json:"be_hostapp_no_cgrouppath_usage_cpus"` // 0: no host application in the NodeSLO
 	Topo     c10TopoCfg `json:"topo"`
 	Quota    bool       `json:"cfs_quota_policy"`
 	Thr      int64      `json:"threshold_percent"`
@@ -103,6 +105,10 @@ func c10RunE2ECase(t *testing.T, tree *c10Tree, l *c10Layout, c *c10E2ECase) (ps
 	slo := testutil.GetNodeSLOByThreshold(&slov1alpha1.ResourceThresholdStrategy{Enable: ptr.To(true), CPUSuppressPolicy: policy,
 		CPUSuppressThresholdPercent: ptr.To(c.Thr), CPUSuppressMinPercent: c.Min})
 
+	if c.HostBENil > 0 { // a BE host application without cgroupPath: runs outside kubepods besteffort, must be deducted
+		slo.Spec.HostApplications = []slov1alpha1.HostApplicationSpec{{Name: "host-be-nil", QoS: apiext.QoSBE}}
+	}
+
 	si := mockstatesinformer.NewMockStatesInformer(ctl)
 	si.EXPECT().GetAllPods().Return(pods).AnyTimes()
 	si.EXPECT().GetNode().Return(node).AnyTimes()
@@ -128,6 +134,14 @@ func c10RunE2ECase(t *testing.T, tree *c10Tree, l *c10Layout, c *c10E2ECase) (ps
 			t.Fatal(err)
 		}
 		testutil.BuildMockQueryResult(ctl, querier, factory, meta, float64(usage[i]))
+	}
+	if c.HostBENil > 0 {
+		total += c.HostBENil
+		meta, err := metriccache.HostAppCPUUsageMetric.BuildQueryMeta(metriccache.MetricPropertiesFunc.HostApplication("host-be-nil"))
+		if err != nil {
+			t.Fatal(err)
+		}
+		testutil.BuildMockQueryResult(ctl, querier, factory, meta, float64(c.HostBENil))
 	}
 	testutil.BuildMockQueryResult(ctl, querier, factory, nodeMeta, float64(total))
 
@@ -175,7 +189,7 @@ func c10JudgeE2E(tree *c10Tree, l *c10Layout, c *c10E2ECase, ps string, tee *c10
 	}
 	cnt("no_panic_checked", 1)
 	// budget from the statement, micro-CPUs; the code may be up to the rounding band above it
-	bc := &c10BudCase{N: l.N, Thr: c.Thr, Min: c.Min, LS: c.LSUsage * 1e6, LSR: c10E2ELSEUsage * 1e6, BE: c10E2EBEUsage * 1e6, Sys: c10E2ESysUsage * 1e6}
+	bc := &c10BudCase{N: l.N, Thr: c.Thr, Min: c.Min, LS: c.LSUsage * 1e6, LSR: c10E2ELSEUsage * 1e6, BE: c10E2EBEUsage * 1e6, Sys: c10E2ESysUsage * 1e6, HostBENil: c.HostBENil * 1e6}
 	exact := c10BudExact(bc)
 	// every cpuset.cpus file that was written: distinct existing unprotected CPUs.
 	// what the agent finally decided per cpuset.cpus file (last update handed to the executor) and what the file holds
@@ -294,7 +308,7 @@ outer:
 		reserved := c10DedupSets([][]int{nil, c10FirstK(min(2, l.N)), l.ids()})
 		sys := c10DedupSets([][]int{nil, l.setUpperHalf(), l.ids()})
 		olds := c10DedupSets([][]int{l.ids(), c10FirstK(min(2, l.N))})
-		rx := mc.Radix{Dims: []int{len(lseSets), 2, len(reserved), len(sys), 2, 2, len(tms), len(olds)}}
+		rx := mc.Radix{Dims: []int{len(lseSets), 3, len(reserved), len(sys), 2, 2, len(tms), len(olds)}}
 		total += rx.Size()
 		for i := int64(0); i < rx.Size(); i++ {
 			if env.Expired() {
@@ -303,7 +317,7 @@ outer:
 				break outer
 			}
 			d := rx.Decode(i, make([]int, 0, 8))
-			c := &c10E2ECase{Layout: l.Name, LSESet: lseSets[d[0]], LSUsage: int64(d[1] * 3),
+			c := &c10E2ECase{Layout: l.Name, LSESet: lseSets[d[0]], LSUsage: []int64{0, 3, 0}[d[1]], HostBENil: []int64{0, 0, 3}[d[1]],
 				Topo:  c10TopoCfg{Reserved: reserved[d[2]], Sys: sys[d[3]], Static: d[5] == 1},
 				Quota: d[4] == 1, Thr: tms[d[6]].thr, Min: tms[d[6]].min, Old: olds[d[7]]}
 			c.CurQuota = -1
@@ -331,7 +345,7 @@ outer:
 	for _, l := range layouts {
 		names = append(names, l.Name)
 	}
-	res.Rule = fmt.Sprintf("suppressBECPU() end to end (serial, real files) for every member of layouts%v x LSE pod cpuset{none,core 0,all} x LS pod usage{0,3} x reservedCPUs{none,{0,1},all} x system-QoS exclusive{none,upper half,all} x policy{cpuset,cfsQuota} x kubelet{none,static} x (threshold,min){(65,nil),(100,25),(0,nil)} x (old BE cpuset,current quota){(all,unset),({0,1},N periods)}; non-trivial = something was written; distinct = distinct (case, file contents)", names)
+	res.Rule = fmt.Sprintf("suppressBECPU() end to end (serial, real files) for every member of layouts%v x LSE pod cpuset{none,core 0,all} x (LS pod usage, BE host app without cgroupPath usage){(0,none),(3,none),(0,3)} x reservedCPUs{none,{0,1},all} x system-QoS exclusive{none,upper half,all} x policy{cpuset,cfsQuota} x kubelet{none,static} x (threshold,min){(65,nil),(100,25),(0,nil)} x (old BE cpuset,current quota){(all,unset),({0,1},N periods)}; non-trivial = something was written; distinct = distinct (case, file contents)", names)
 	res.Bounds = map[string]any{"cases": total}
 	res.Assumptions = []string{"e2e: LSE pod uses 1 CPU, BE pod 1 CPU, system 1 CPU; no node reservation in the budget; cgroup v1; default feature gates (BECPUSuppress on, BECPUManager off)"}
 	env.Emit(res)
